@@ -76,9 +76,3 @@ Example C02_nonvacuous :
   = [ (700, 1300, VBool true); (1000, 1000, VBool false); (1000, 1000, VFault);
       (700, 1300, VNull); (1000, 1000, VFault) ].
 Proof. vm_compute. reflexivity. Qed.
-
-(** Source constants.  The literals of the model behind this property are tied to the
-    constants of /repo's Go sources (Gen/Params.v, regenerated from the working tree on
-    every run) in Proofs/TiesBalance.v; requiring that file here makes the obligations of this
-    property fail when a constant it depends on is edited in the source. *)
-Require Verif.Proofs.TiesBalance.
